@@ -1372,7 +1372,7 @@ int dump_compare_prefix(const dump_t *a, const dump_t *b, const char *path_a, co
             int32_t r1 = jls_rd_fsr(ra, (uint16_t) i, pos, xa, ln), r2 = jls_rd_fsr(rb, (uint16_t) i, pos, xb, ln);
             int same = r1 == r2 && (r1 || bits_equal(xa, 0, xb, 0, ln * t->bits, NULL));
             free(xa); free(xb);
-            if (!same) { snprintf(key, sizeof(key), "%s|samples", kp); v_violation(prop, key, NULL, "signal %d: samples [%lld,+%lld) read differently from original and copy (rc %d vs %d)", i, (long long) pos, (long long) ln, r1, r2); bad++; break; }
+            if (!same) { snprintf(key, sizeof(key), "%s|samples|%s", kp, r1 && !r2 ? "original-read-error" : (!r1 && r2 ? "copy-read-error" : (r1 ? "both-error-differently" : "values"))); v_violation(prop, key, NULL, "signal %d: samples [%lld,+%lld) read differently from original and copy (rc %d vs %d)", i, (long long) pos, (long long) ln, r1, r2); bad++; break; }
             pos += ln;
         }
     }
